@@ -278,7 +278,7 @@ def tierwise_cases(draw):
         near = [math.nextafter(t, math.inf) for t in pts_] + [math.nextafter(t, -math.inf) for t in pts_ if t > 0]
         near = [x for x in near if spec["minT"] <= x <= spec["maxT"]]  # (windows and regions stay inside the textgrid's span)
     pick = st.sampled_from(ts + mids + near)  # near: a window edge one unit in the last place beside a point
-    kind = draw(st.sampled_from(["crop", "erase", "insert", "edit", "crop", "insert", "erase"]))
+    kind = draw(st.sampled_from(["crop", "erase", "insert", "edit", "crop", "insert", "erase", "crop"]))
     op = {"kind": kind}
     if kind in ("crop", "erase"):
         a, b = draw(pick), draw(pick)
